@@ -2,3 +2,4 @@ import SedpackProofs.Hash
 import SedpackProofs.Filler
 import SedpackProofs.PoolThm
 import SedpackProofs.Pipe
+import SedpackProofs.TreeSession
